@@ -208,6 +208,26 @@ Definition stmt_sample_sets_clock : Prop := forall st d rule_ now t name labels 
     (f_series st name (lm_keys labels) (lm_vals labels) = None ->
        exists zero vec, new_child vec = Ok zero /\ vc_type vec = t /\ upd zero = Ok v).
 
+(* C07 over histories of sweeps (clock readings of successive one-second ticks, in any order) *)
+Definition f_sweeps (st : fstate) (nows : list Z) : fstate := fold_left f_sweep nows st.
+
+(* never earlier: as long as no sweep happens later than last sample + ttl - and always when the
+   ttl is 0 - the series stays, with its value, clock and ttl unchanged *)
+Definition stmt_not_before_ttl : Prop := forall st nows n ks vs s,
+  f_series st n ks vs = Some s ->
+  ((fv_ttl s = 0)%Z \/ Forall (fun now => (now <= fv_last s + fv_ttl s)%Z) nows) ->
+  f_series (f_sweeps st nows) n ks vs = Some s.
+
+(* once stale it is gone at the next sweep, and no later sweep brings it back *)
+Definition stmt_gone_after_ttl : Prop := forall st now later n ks vs s,
+  f_series st n ks vs = Some s -> (fv_ttl s <> 0)%Z -> (fv_last s + fv_ttl s < now)%Z ->
+  f_series (f_sweeps st (now :: later)) n ks vs = None.
+
+(* sweeps create nothing and leave the claims on names (type, help) alone *)
+Definition stmt_sweeps_only_remove : Prop := forall st nows,
+  f_claim (f_sweeps st nows) = f_claim st /\
+  (forall n ks vs, f_series st n ks vs = None -> f_series (f_sweeps st nows) n ks vs = None).
+
 (* C08 on the flat account: a conflict leaves claims, shapes and series untouched *)
 Definition stmt_flat_conflict_isolated : Prop := forall st d rule_ now t name labels help ttl upd st',
   f_sample st d rule_ now t name labels help ttl upd = FConflict st' ->
